@@ -101,6 +101,14 @@ def explore_and_prove(fn, assumptions, goal_of, max_paths=5000, timeout_ms=20000
     return out
 
 
+def twin_verdict(o):
+    """reachability twin: 'violated' (good), 'passed' (the obligation is vacuous => harness error) or 'unknown' (the twin run was cut
+    short by its deadline / solver unknowns before it met a failing path: says nothing)"""
+    if o.failed:
+        return "violated"
+    return "unknown" if o.inconclusive else "passed"
+
+
 def twin_violated(fn, assumptions, goal_of, **kw):
     """reachability twin: with a deliberately wrong goal at least one path must fail"""
     o = explore_and_prove(fn, assumptions, goal_of, **kw)
